@@ -27,6 +27,8 @@ def State.core (s : State) : Core :=
 namespace State
 @[simp] theorem setCell_core (s : State) (c : Nat) (t : T) : (s.setCell c t).core = s.core := rfl
 @[simp] theorem setObj_core (s : State) (i : Nat) (o : Obj) : (s.setObj i o).core = s.core := rfl
+@[simp] theorem syncFrom_core (s : State) (c : Nat) : (s.syncFrom c).core = s.core := rfl
+@[simp] theorem syncFrom_fam (s : State) (c : Nat) : (s.syncFrom c).fam = s.fam := rfl
 @[simp] theorem own_core (s : State) (a b c : Nat) : (s.own a b c).core = s.core := by
   unfold own; split <;> rfl
 @[simp] theorem addDetached_core (s : State) (i : Nat) (ts : List T) :
@@ -254,6 +256,23 @@ theorem cellData_setCell (s : State) (c : Nat) (t : T) : (s.setCell c t).cellDat
       exact h (List.any_eq_true.mpr ⟨x, hx, hxc⟩)
     simp [List.find?_append, hnone]
 
+theorem find_map_other (c : Nat) (g : Nat × T → Nat × T) (hg : ∀ p, (g p).1 = p.1)
+    (hc : ∀ p, p.1 = c → g p = p) (l : List (Nat × T)) :
+    (l.map g).find? (·.1 = c) = l.find? (·.1 = c) := by
+  induction l with
+  | nil => rfl
+  | cons q qs ih =>
+    simp only [List.map_cons, List.find?_cons, hg]
+    by_cases hq : q.1 = c
+    · simp [hq, hc q hq]
+    · simp only [hq, decide_false, ih]
+
+/-- bringing the other cells up to date does not touch the cell itself -/
+theorem cellData_syncFrom (s : State) (c : Nat) : (s.syncFrom c).cellData c = s.cellData c := by
+  unfold State.syncFrom State.cellData
+  simp only
+  rw [find_map_other c _ (fun p => by split <;> rfl) (fun p hp => by simp [hp])]
+
 /-- the memory of the merging object after `mergeInto` is the merge result -/
 theorem mergeInto_root (s : State) (oi : Nat) (o : Obj) (d : J) :
     (mergeInto s oi o d).1.root o = (updNode s.fam (s.root o) d s.next).val := by
@@ -263,6 +282,6 @@ theorem mergeInto_root (s : State) (oi : Nat) (o : Obj) (d : J) :
     intro x a b c; unfold State.own; split <;> rfl
   have h2 : ∀ (x : State) (a : Nat) (ts : List T), (x.addDetached a ts).cellData o.cell = x.cellData o.cell :=
     fun _ _ _ => rfl
-  rw [h2, h1, cellData_setCell]
+  rw [h2, h1, cellData_syncFrom, cellData_setCell]
 
 end SC.B
